@@ -348,18 +348,32 @@ fn eval_str(ctx: &Ctx, s: &str, l: &mut Local) {
     }
   }
   // TryFrom<BaseDIDUrl> and serde reach try_from_core through CoreDID::try_from(BaseDIDUrl)
-  let rb = guard(|| BaseDIDUrl::parse(s).map_err(identity_did::Error::from).and_then(IotaDID::try_from));
-  if let Ok(Ok(v)) = &rb {
-    judge(ctx, "IotaDID::try_from_core", "IotaDID::try_from(BaseDIDUrl)", s, v, &case);
+  // (a panic or error of `BaseDIDUrl::parse` itself, called here by the harness, is not the library's)
+  let rb = match guard(|| BaseDIDUrl::parse(s)) {
+    Ok(Ok(base)) => guard(|| IotaDID::try_from(base)),
+    _ => Ok(Err(identity_did::Error::Other("BaseDIDUrl::parse refused the input"))),
+  };
+  match &rb {
+    Err(p) => ctx.violation(&format!("IotaDID::try_from_core|{}", pkey(p)), &format!("IotaDID::try_from(BaseDIDUrl {s:?}): {}", p.msg), &case),
+    Ok(Ok(v)) => {
+      judge(ctx, "IotaDID::try_from_core", "IotaDID::try_from(BaseDIDUrl)", s, v, &case);
+    }
+    Ok(Err(_)) => {}
   }
   let rd = guard(|| serde_json::from_value::<IotaDID>(json!(s)));
-  if let Ok(Ok(v)) = &rd {
-    judge(ctx, "IotaDID::try_from_core", "IotaDID::deserialize", s, v, &case);
+  match &rd {
+    Err(p) => {
+      // serde reaches the CoreDID layer first: a panic there is CoreDID's (property C10)
+      let inner = guard(|| serde_json::from_value::<CoreDID>(json!(s)).is_ok());
+      let entry = if inner.is_err() { "CoreDID::deserialize" } else { "IotaDID::try_from_core" };
+      ctx.violation(&format!("{entry}|{}", pkey(p)), &format!("IotaDID deserialized from {s:?}: {}", p.msg), &case);
+    }
+    Ok(Ok(v)) => {
+      judge(ctx, "IotaDID::try_from_core", "IotaDID::deserialize", s, v, &case);
+    }
+    Ok(Err(_)) => {}
   }
   let (sb, sd) = (sig(&rb), sig(&rd));
-  if sb != sd {
-    ctx.violation("IotaDID::deserialize|differs-from-try_from(BaseDIDUrl)", &format!("input {s:?}: {sb:?} vs {sd:?}"), &case);
-  }
   let den = if s.is_ascii() {
     match (denotes(s), normal_form(s).is_ok()) {
       (_, true) => "normal-form",
